@@ -5,8 +5,8 @@ from ..extra_c08 import extra_run
 globals().update(
     make(
         pid="C08",
-        props=["JaqalProofs/Props/C08.lean", "JaqalProofs/Props/C08Run.lean", "JaqalProofs/Lemmas/WalkSerialize.lean", "JaqalProofs/Props/C08Outputs.lean", "JaqalProofs/Props/C03End.lean"],
-        targets=["JaqalProofs.Props.C08", "JaqalProofs.Props.C08Run", "JaqalProofs.Lemmas.WalkSerialize", "JaqalProofs.Props.C08Outputs", "JaqalProofs.Props.C03End"],
+        props=["JaqalProofs/Props/C08.lean", "JaqalProofs/Props/C08Run.lean", "JaqalProofs/Lemmas/WalkSerialize.lean", "JaqalProofs/Props/C08Outputs.lean", "JaqalProofs/Props/C03End.lean", "JaqalProofs/Props/C03EndFull.lean"],
+        targets=["JaqalProofs.Props.C08", "JaqalProofs.Props.C08Run", "JaqalProofs.Lemmas.WalkSerialize", "JaqalProofs.Props.C08Outputs", "JaqalProofs.Props.C03End", "JaqalProofs.Props.C03EndFull"],
         diffs=[("harness.agents.walk_diff", 1500, 10000), ("harness.agents.outlist_diff", 1500, 12000, {"one_readout_per_visit_in_order", "too_few_outputs_rejected", "extra_outputs_ignored", "strings_and_ints_agree", "frequencies_count_own_readouts", "subcircuit_spelling_agrees", "bool_outputs_count_as_ints"}), ("harness.agents.c08_history", 600, 600), ("harness.agents.c08_edge", 1000, 600, {"edge_terminates", "edge_accepted", "edge_emulator_visits", "edge_output_list_visits", "edge_own_readouts", "edge_outcome_possible", "edge_scope_float_let", "edge_scope_macro_subcircuit"}), ("harness.agents.c08_scale", 250, 250), ("harness.agents.c08_traps", 400, 400, {"traps_terminates", "traps_accepted", "traps_emulator_visits", "traps_output_list_visits", "traps_own_readouts", "traps_outcome_possible", "traps_after_failure"})],
         extra_run=extra_run,
         trusted=[
